@@ -33,10 +33,16 @@ def _ret(value):
 def pick(table, idx):
   """table[idx] with the index decided by explicit branching, so that the result is the CONCRETE
   table element (CrossHair otherwise builds a symbolic selection; for floats that means FP queries)."""
-  for i in range(len(table)):
-    if idx == i:
-      return table[i]
-  raise IndexError(idx)
+  lo, hi = 0, len(table)
+  if not (0 <= idx < hi):
+    raise IndexError(idx)
+  while hi - lo > 1:                 # bisection: log2(n) solver decisions per path instead of n
+    mid = (lo + hi) // 2
+    if idx < mid:
+      hi = mid
+    else:
+      lo = mid
+  return table[lo]
 
 
 class H(object):
